@@ -17,8 +17,9 @@ BR1 = dict(fthr=1, fcap=1, frate=0, fexec=0, period=0, sthr=0, scap=0, delay=100
 def cb(id, cfg=BR1, h=()): return dict(k="cb", id=id, cfg=cfg, h=list(h))
 
 def fn(d=0, r="R1", e=None, coop=False): return dict(d=d, r=r, e=leaf(e) if e else NIL, coop=coop)
-def start(x, at=0, asyn=False, dl=-1): return dict(at=at, what="Start", x=x, **{"async": asyn}, id="", gap=0, dl=dl)
-def env(what, at, x=0, id="", gap=0): return dict(at=at, what=what, x=x, **{"async": False}, id=id, gap=gap, dl=-1)
+def start(x, at=0, asyn=False, dl=-1, ck="none"): return dict(at=at, what="Start", x=x, **{"async": asyn}, id="", gap=0, dl=dl, ck=ck)
+def env(what, at, x=0, id="", gap=0): return dict(at=at, what=what, x=x, **{"async": False}, id=id, gap=gap, dl=-1, ck="none")
+def cache(id, key="k", ifc=()): return dict(k="cache", id=id, key=key, ifc=list(ifc))
 
 
 def scenario(stack, fns, envs, tld=0, async_fix=None, unit_ns=1_000_000, default=None, readers=False):
